@@ -49,7 +49,11 @@ MODULES = ["Spydr.Verilog.Model", "Spydr.Verilog.ModelElab", "Spydr.Verilog.Mode
            "Spydr.Verilog.RoundTripSingle", "Spydr.Verilog.RoundTripBits",
            "Spydr.Verilog.RoundTripTrack", "Spydr.Verilog.RoundTripAst", "Spydr.Verilog.RoundTripView",
            "Spydr.Verilog.RoundTripTokA", "Spydr.Verilog.RoundTripTokB", "Spydr.Verilog.RoundTripTokC",
-           "Spydr.Verilog.RoundTripTokD", "Spydr.Verilog.RoundTripText"]
+           "Spydr.Verilog.RoundTripTokD", "Spydr.Verilog.RoundTripText",
+           "Spydr.Verilog.RoundTripRenderA", "Spydr.Verilog.RoundTripRenderB",
+           "Spydr.Verilog.RoundTripLexA", "Spydr.Verilog.RoundTripLexB",
+           "Spydr.Verilog.WFBase", "Spydr.Verilog.WFPort", "Spydr.Verilog.WFEval", "Spydr.Verilog.WFHeader",
+           "Spydr.Verilog.WFDecl", "Spydr.Verilog.WFInst", "Spydr.Verilog.WFDesign", "Spydr.Verilog.WFStruct"]
 THEOREMS = {
     "C06": ["Spydr.Verilog.getWires_spec", "Spydr.Verilog.getWires_spec_single_all", "Spydr.Verilog.concat_spec",
             "Spydr.Verilog.connect_low_aligned", "Spydr.Verilog.connect_low_aligned_fresh",
@@ -60,7 +64,8 @@ THEOREMS = {
             "Spydr.Verilog.elab_connection_total",
             "Spydr.Verilog.Elab.instantiate_named", "Spydr.Verilog.Elab.instances_fold", "Spydr.Verilog.Elab.header_fold",
             "Spydr.Verilog.Elab.wires_fold", "Spydr.Verilog.Elab.elabModule_frag", "Spydr.Verilog.Elab.elabDesign_frag",
-            "Spydr.Verilog.Elab.exDesign_frag"],
+            "Spydr.Verilog.Elab.exDesign_frag",
+            "Spydr.Verilog.Elab.regrow_wf", "Spydr.Verilog.Elab.createOrUpdateCable_wf", "Spydr.Verilog.Elab.createOrUpdatePort_wf", "Spydr.Verilog.Elab.reorderPorts_wf", "Spydr.Verilog.Elab.portDecl_wf", "Spydr.Verilog.Elab.connectInstRow_wf", "Spydr.Verilog.Elab.instantiate_wf", "Spydr.Verilog.Elab.positional_wf", "Spydr.Verilog.Elab.assignStmt_wf", "Spydr.Verilog.Elab.elabModule_wf", "Spydr.Verilog.Elab.elabDesign_wf", "Spydr.Verilog.Elab.readV_wf", "Spydr.Verilog.Elab.structWF_iff", "Spydr.Verilog.Elab.reader_structWF", "Spydr.Verilog.Elab.elab_structWF", "Spydr.Verilog.Elab.exNet_structWF", "Spydr.Verilog.Elab.pending_not_emptied"],
     "C04": ["Spydr.Verilog.emit_eval", "Spydr.Verilog.emit_eval_spec", "Spydr.Verilog.decl_range_roundtrip",
             "Spydr.Verilog.alias_header_roundtrip", "Spydr.Verilog.assign_regen", "Spydr.Verilog.assign_regen_all",
             "Spydr.Verilog.write_order_defined", "Spydr.Verilog.write_order_total", "Spydr.Verilog.visit_order_defined",
@@ -75,7 +80,9 @@ THEOREMS = {
             "Spydr.Verilog.Elab.cables_view", "Spydr.Verilog.Elab.ports_view", "Spydr.Verilog.Elab.inst_view_step",
             "Spydr.Verilog.Elab.c04_view", "Spydr.Verilog.Elab.c04_ast", "Spydr.Verilog.Elab.exNet_frag",
             "Spydr.Verilog.Elab.expr_toks", "Spydr.Verilog.Elab.star_toks", "Spydr.Verilog.Elab.paramMap_toks", "Spydr.Verilog.Elab.namedMapGo_toks", "Spydr.Verilog.Elab.instP_toks", "Spydr.Verilog.Elab.portDeclP_toks", "Spydr.Verilog.Elab.cableDeclGo_toks", "Spydr.Verilog.Elab.bodyGo_items", "Spydr.Verilog.Elab.moduleP_toks", "Spydr.Verilog.Elab.parseV_toks", "Spydr.Verilog.Elab.parse_tokens", "Spydr.Verilog.Elab.c04_tokens", "Spydr.Verilog.Elab.exNet_tokens",
-            "Spydr.Verilog.Elab.c04_text", "Spydr.Verilog.Elab.exNet_full", "Spydr.Verilog.Elab.exNet_roundtrip"],
+            "Spydr.Verilog.Elab.c04_text", "Spydr.Verilog.Elab.exNet_full", "Spydr.Verilog.Elab.exNet_roundtrip",
+            "Spydr.Verilog.Elab.composeV_text", "Spydr.Verilog.Elab.moduleText_top", "Spydr.Verilog.Elab.fragFull_of",
+            "Spydr.Verilog.Elab.lexV_run", "Spydr.Verilog.Elab.add_pend", "Spydr.Verilog.Elab.add_word_end", "Spydr.Verilog.Elab.run_clean", "Spydr.Verilog.Elab.lex_pieces", "Spydr.Verilog.Elab.lexV_pieces"],
 }
 
 
